@@ -342,3 +342,86 @@ func badBoundsVarOffByPrefix(p []byte) []byte {
 	}
 	return p[1 : 1+n]
 }
+
+// ---------------------------------------------------------------- re-entrancy, guarded-by, calls under the write lock
+
+type table struct {
+	mu   sync.RWMutex
+	rows map[string]int
+}
+
+func (t *table) size() int {
+	t.mu.RLock()
+	defer t.mu.RUnlock()
+	return len(t.rows)
+}
+
+func okReentrantSequential(t *table) int {
+	t.mu.Lock()
+	t.rows["a"] = 1
+	t.mu.Unlock()
+	return t.size()
+}
+
+func badReentrantThroughCallee(t *table) int {
+	t.mu.Lock()
+	defer t.mu.Unlock()
+	t.rows["a"] = 1
+	return t.size()
+}
+
+func okHeldWrite(t *table) {
+	t.mu.Lock()
+	defer t.mu.Unlock()
+	t.rows["a"] = 1
+}
+
+func badHeldWriteUnderReadLock(t *table) {
+	t.mu.RLock()
+	defer t.mu.RUnlock()
+	t.rows["a"] = 1
+}
+
+func badHeldReadAfterUnlock(t *table) int {
+	t.mu.RLock()
+	t.mu.RUnlock()
+	return t.rows["a"]
+}
+
+func okUnderLockPlain(t *table) {
+	t.mu.Lock()
+	t.rows["a"] = 1
+	t.mu.Unlock()
+	mark()
+}
+
+func badUnderLockCallsOut(t *table) {
+	t.mu.Lock()
+	t.rows["a"] = 1
+	mark()
+	t.mu.Unlock()
+}
+
+// ---------------------------------------------------------------- input mutation
+
+func okMutInputCopies(in []int) []int {
+	out := make([]int, len(in))
+	copy(out, in)
+	out[0] = 1
+	return out
+}
+
+func badMutInputInPlace(in []int) []int {
+	out := in[:0]
+	for _, v := range in {
+		if v > 0 {
+			out = append(out, v)
+		}
+	}
+	return out
+}
+
+func badMutInputField(h *hdr) int64 {
+	h.Length++
+	return h.Length
+}
